@@ -363,3 +363,34 @@ def check(case, rec):
     if observe.snapshot(t) != before:
         bad("receiver-modified", "collapse changed its receiver")
     rec.nt(has_nz and multi)
+
+
+# ---------------------------------------------------------------------------
+# pinned: groups with more than 1024 members (block-wise stacking)
+
+def _long(n, axis, what, lab):
+    m = 2
+    rows = [[float((i * 7 + j * 3) % 5) for j in range(m)] for i in range(n)]
+    obs, samp = ["o%d" % i for i in range(n)], ["s%d" % j for j in range(m)]
+    spec = {"obs": obs, "samp": samp, "rows": rows, "obs_md": None,
+            "samp_md": None, "type": None, "form": "dense", "history": []}
+    if axis == "sample":
+        spec = {"obs": samp, "samp": obs,
+                "rows": [[rows[i][j] for i in range(n)] for j in range(m)],
+                "obs_md": None, "samp_md": None, "type": None,
+                "form": "dense", "history": []}
+    case = {"table": spec, "axis": axis, "what": what, "lab": lab}
+    if what == "partition":
+        case.update({"remove_empty": False, "ignore_none": False})
+    else:
+        case.update({"norm": False, "min_group_size": 1, "include_md": True})
+    return case
+
+
+REGRESSIONS = [
+    _long(1875, "observation", "partition", {"kind": "const"}),
+    _long(1500, "sample", "collapse", {"kind": "const"}),
+    _long(2100, "observation", "collapse", {"kind": "id_mod", "k": 2,
+                                            "salt": 1}),
+    _long(1100, "sample", "partition", {"kind": "injective"}),
+]
